@@ -209,7 +209,9 @@ def run_projects(ctx: core.Ctx, projects: list[dict[str, Any]], stream: str) -> 
                     if any(w is None for w in wants) or any(not isinstance(g, bool) for g in gots):
                         continue
                     if any(wants) != any(gots):
-                        key = KNOWN_SINGLE if any("python" in x and short_single(x["python"]) for x in group) else f"selection-multi:{group}"
+                        from .c07 import KNOWN_NOTIN, notin_class
+                        key = (KNOWN_SINGLE if any("python" in x and short_single(x["python"]) for x in group) else
+                               KNOWN_NOTIN if any(notin_class(x.get("markers", "")) for x in group) else f"selection-multi:{group}")
                         ctx.violate(key, f"declared {group} -> {mine}: reference selects={any(gots)} for version {vt} on py={e['python_full_version']} "
                                          f"platform={e['sys_platform']} extras={e['extra']}, the declaration says {any(wants)}", {**wit, "version": vt, "env": e})
                         break
@@ -245,7 +247,9 @@ def run_projects(ctx: core.Ctx, projects: list[dict[str, Any]], stream: str) -> 
                 if want is None or not isinstance(got, bool):
                     continue
                 if got != want:
-                    key = KNOWN_SINGLE if "python" in d and short_single(d["python"]) else f"selection:{d}"
+                    from .c07 import KNOWN_NOTIN, notin_class
+                    key = (KNOWN_SINGLE if "python" in d and short_single(d["python"]) else
+                           KNOWN_NOTIN if notin_class(d.get("markers", "")) else f"selection:{d}")
                     ctx.violate(key, f"declared {d} -> {mine[0]!r}: reference selects={got} for version {vt} on py={e['python_full_version']} "
                                      f"platform={e['sys_platform']} extras={e['extra']}, declaration says {want}", {**wit, "version": vt, "env": e, "dep_decl": d})
                     break
@@ -578,7 +582,9 @@ def run_projects621(ctx: core.Ctx, projects: list[dict[str, Any]], stream: str) 
                 want, got = any(dv), any(ev)
                 if want != got:
                     own_extra = any(x is not None and ";" in t and G.mentions_extra(t.split(";", 1)[1]) for t, x in group)
-                    ctx.violate(KNOWN_OPT_EXTRA if own_extra else f"selection621:{nm}:{sorted(t for t, _ in group)}",
+                    from .c07 import KNOWN_NOTIN, notin_class
+                    ctx.violate(KNOWN_OPT_EXTRA if own_extra else KNOWN_NOTIN if any(notin_class(t) for t, _ in group) else
+                                f"selection621:{nm}:{sorted(t for t, _ in group)}",
                                 f"[project] declares {group} for {nm}; Requires-Dist has {emitted}: reference selects={got} for version {cv} on "
                                 f"py={e['python_full_version']} platform={e['sys_platform']} extras={e['extra']}, the declaration says {want}", wit)
                     break
@@ -601,6 +607,7 @@ CORPUS_DEPS = [
     {"name": "a6", "version": "~=1.2.3", "platform": "linux || darwin", "extras": ["x"]},
     {"name": "a9", "version": ">=1.0", "python": ">=3.8", "markers": 'python_version < "3.8"'},   # contradictory: no line (3213fc9)
     {"name": "a10", "version": ">=1.0", "python": ">=3.8", "platform": "linux"}, {"name": "a11", "version": "*", "optional": True},
+    {"name": "a12", "version": "==1", "markers": "'SMP' not in platform_version or \"Debian\" not in platform_version"},   # class notin-union-notin-any
     {"name": "a7", "version": ">1", "python": "3.*,>3.10"}, {"name": "a8", "version": "<2", "python": ">=3.6,!=3.8.*", "markers": 'python_version in "3.8 3.9"'},
 ]
 
@@ -642,12 +649,12 @@ def search(ctx: core.Ctx) -> None:
     projects = [gen_project(ctx.rng) for _ in range(1200)]
     for k in range(0, len(projects), 250):
         run_projects(ctx, projects[k:k + 250], "search-gen")
-        if [v for v in ctx.violations if v.key not in (KNOWN_SINGLE, KNOWN_OPT_EXTRA)]:
+        if [v for v in ctx.violations if v.key not in (KNOWN_SINGLE, KNOWN_OPT_EXTRA, "notin-union-notin-any")]:
             return
     p621 = [gen_project621(ctx.rng) for _ in range(1200)]
     for k in range(0, len(p621), 250):
         run_projects621(ctx, p621[k:k + 250], "search-gen621")
-        if [v for v in ctx.violations if v.key not in (KNOWN_SINGLE, KNOWN_OPT_EXTRA)]:
+        if [v for v in ctx.violations if v.key not in (KNOWN_SINGLE, KNOWN_OPT_EXTRA, "notin-union-notin-any")]:
             return
 
 
